@@ -39,7 +39,9 @@ import (
 	"context"
 	"crypto/sha256"
 	"crypto/sha512"
+	"errors"
 	"fmt"
+	"io"
 	"math/bits"
 	"sort"
 	"strings"
@@ -47,6 +49,7 @@ import (
 	"sync/atomic"
 	"time"
 
+	"github.com/notaryproject/notation-core-go/signature"
 	"github.com/notaryproject/notation-go"
 	"github.com/notaryproject/notation-go/verifier"
 	"github.com/notaryproject/notation-go/verifier/trustpolicy"
@@ -56,6 +59,7 @@ import (
 	"github.com/notaryproject/notation-go/zzverif/lib/pki"
 	"github.com/opencontainers/go-digest"
 	ocispec "github.com/opencontainers/image-spec/specs-go/v1"
+	"oras.land/oras-go/v2/errdef"
 )
 
 // ---------------- alphabets ----------------
@@ -119,7 +123,43 @@ type world struct {
 	name       string
 	resolved   ocispec.Descriptor
 	refStrings []string
-	resolveArg []string // hand-written: the part of the reference the repository has to be asked for
+	resolveArg []string                     // hand-written: the part of the reference the repository has to be asked for
+	payloads   [][]byte                     // per payload variant: the payload a valid signature signs
+	contents   []*signature.EnvelopeContent // per payload variant: what the scripted verifier's valid outcome carries
+}
+
+// Payload variants: what a VALID signature signs. The verifier compares media type, digest and size only,
+// so all of them verify; they differ from the resolved descriptor in the fields it does not compare.
+var payloadNames = []string{"bare-outcome/descriptor-without-optional-fields", "descriptor-with-user-metadata-annotations", "copy-of-resolved-descriptor"}
+
+func signedPayloads(resolved ocispec.Descriptor) ([][]byte, []*signature.EnvelopeContent) {
+	bare := ocispec.Descriptor{MediaType: resolved.MediaType, Digest: resolved.Digest, Size: resolved.Size}
+	meta := bare
+	meta.Annotations = map[string]string{"io.example.user-metadata/build": "c10", "org.example.c10/resolved-by": "the signer"}
+	ps := [][]byte{forge.PayloadFor(bare), forge.PayloadFor(meta), forge.PayloadFor(resolved)}
+	cs := []*signature.EnvelopeContent{nil} // scripted variant 0: an outcome without envelope content
+	for _, p := range ps[1:] {
+		cs = append(cs, &signature.EnvelopeContent{Payload: signature.Payload{ContentType: forge.PayloadType, Content: p}})
+	}
+	return ps, cs
+}
+
+// Error kinds: what an unfetchable signature's fetch fails with / what an invalid signature is rejected with
+// by the scripted verifier. The statement knows "cannot be fetched" and "does not verify", not kinds of errors.
+type errKindT struct {
+	name      string
+	fetchErr  error
+	verifyErr error
+}
+
+var errKinds = []errKindT{
+	{"generic", nil, nil},
+	{"fetch:wraps-oras-ErrNotFound/verify:ErrorVerificationFailed", fmt.Errorf("mock repository: blob is gone: %w", errdef.ErrNotFound), notation.ErrorVerificationFailed{Msg: "scripted verifier: rejected"}},
+	{"fetch:oras-ErrNotFound/verify:ErrorVerificationInconclusive", errdef.ErrNotFound, notation.ErrorVerificationInconclusive{Msg: "scripted verifier: inconclusive"}},
+	{"fetch:wraps-context.Canceled/verify:ErrorNoApplicableTrustPolicy", fmt.Errorf("mock repository: %w", context.Canceled), notation.ErrorNoApplicableTrustPolicy{Msg: "scripted verifier: no policy"}},
+	{"fetch:wraps-oras-ErrSizeExceedsLimit/verify:wraps-oras-ErrNotFound", fmt.Errorf("mock repository: %w", errdef.ErrSizeExceedsLimit), fmt.Errorf("scripted verifier: certificate store: %w", errdef.ErrNotFound)},
+	{"fetch:ErrorSignatureRetrievalFailed/verify:ErrorUserMetadataVerificationFailed", notation.ErrorSignatureRetrievalFailed{Msg: "mock repository: retrieval failed"}, notation.ErrorUserMetadataVerificationFailed{Msg: "scripted verifier: metadata"}},
+	{"fetch:wraps-context.DeadlineExceeded+io.ErrUnexpectedEOF/verify:joined-errors", errors.Join(context.DeadlineExceeded, io.ErrUnexpectedEOF), errors.Join(notation.ErrorVerificationFailed{}, errors.New("scripted verifier: two reasons"))},
 }
 
 const nWorlds = 2
@@ -142,7 +182,10 @@ func buildWorlds() []*world {
 	var out []*world
 	for _, alg := range worldNames {
 		own := hexOf(alg, content)
-		w := &world{name: alg, resolved: ocispec.Descriptor{MediaType: mtManifest, Digest: digest.Digest(alg + ":" + own), Size: 528, ArtifactType: "application/vnd.example.c10.resolved"}}
+		// every optional field is set: what comes back must be THIS descriptor, not one rebuilt from the reference or a signature
+		w := &world{name: alg, resolved: ocispec.Descriptor{MediaType: mtManifest, Digest: digest.Digest(alg + ":" + own), Size: 528, ArtifactType: "application/vnd.example.c10.resolved",
+			Annotations: map[string]string{"org.example.c10/resolved-by": "the repository"}, URLs: []string{"https://reg.io/v2/repo/manifests/" + alg + ":" + own}}}
+		w.payloads, w.contents = signedPayloads(w.resolved)
 		// the mismatching digests: another artifact under the resolved algorithm, the SAME content under the other algorithms
 		other := func(a string) string {
 			if a == alg {
@@ -225,8 +268,8 @@ func initFixtures() {
 type realFixtures struct {
 	strict realVerifier
 	skip   realVerifier
-	blobs  [nWorlds][][2][]byte // [world][position][0: signs the resolved descriptor, 1: signs another descriptor]
-	descs  [nWorlds][][2]ocispec.Descriptor
+	blobs  [nWorlds][][4][]byte // [world][position][payload variant 0..2: valid; 3: signs another descriptor]
+	descs  [nWorlds][][4]ocispec.Descriptor
 	index  map[string]int
 }
 
@@ -257,10 +300,10 @@ func buildReal(r *hx.Run, n int) *realFixtures {
 	signingTime := time.Now().Add(-2 * time.Hour).Truncate(time.Second)
 	for w := 0; w < nWorlds; w++ {
 		for i := 0; i < n; i++ {
-			var pair [2][]byte
-			var dpair [2]ocispec.Descriptor
-			for j, target := range []ocispec.Descriptor{worlds[w].resolved, otherDesc} {
-				b := forge.Build(forge.Spec{Format: blobDescs[i].MediaType, Chain: chain.X509(), Key: chain.Leaf().Key, Payload: forge.PayloadFor(target), SigningTime: signingTime, Agent: fmt.Sprintf("c10/%d/%d/%d", w, i, j)})
+			var pair [4][]byte
+			var dpair [4]ocispec.Descriptor
+			for j, payload := range append(append([][]byte{}, worlds[w].payloads...), forge.PayloadFor(otherDesc)) {
+				b := forge.Build(forge.Spec{Format: blobDescs[i].MediaType, Chain: chain.X509(), Key: chain.Leaf().Key, Payload: payload, SigningTime: signingTime, Agent: fmt.Sprintf("c10/%d/%d/%d", w, i, j)})
 				pair[j] = b
 				dpair[j] = ocispec.Descriptor{MediaType: blobDescs[i].MediaType, Digest: digest.FromBytes(b), Size: int64(len(b))}
 				fx.index[string(b)] = i
@@ -281,6 +324,8 @@ type caseT struct {
 	n     int
 	ref   refKind
 	world int // which descriptor the repository resolves (worlds[world])
+	errK  int // errKinds[errK]: how unfetchable / invalid signatures fail
+	pay   int // payloadNames[pay]: what valid signatures sign
 }
 
 func (c *caseT) w() *world { return worlds[c.world] }
@@ -294,10 +339,12 @@ type replayCase struct {
 	Reference       string   `json:"reference"`
 	Resolved        string   `json:"repository_resolves"` // sha256 | sha512: algorithm of the descriptor the repository resolves everything to
 	ReferenceString string   `json:"reference_string,omitempty"`
+	ErrorKind       string   `json:"error_kind,omitempty"`     // errKinds[].name ("" = generic)
+	SignedPayload   string   `json:"signed_payload,omitempty"` // payloadNames[] ("" = the first)
 }
 
 func (c *caseT) replay() replayCase {
-	rc := replayCase{Verifier: "scripted", Policy: "non-skip", Pages: append([]int{}, c.pages...), Limit: c.n, Reference: refNames[c.ref], Resolved: c.w().name, ReferenceString: c.w().refStrings[c.ref], Listing: []string{}}
+	rc := replayCase{Verifier: "scripted", Policy: "non-skip", Pages: append([]int{}, c.pages...), Limit: c.n, Reference: refNames[c.ref], Resolved: c.w().name, ReferenceString: c.w().refStrings[c.ref], Listing: []string{}, ErrorKind: errKinds[c.errK].name, SignedPayload: payloadNames[c.pay]}
 	if c.pass != pScripted {
 		rc.Verifier = "real"
 	}
@@ -312,7 +359,7 @@ func (c *caseT) replay() replayCase {
 
 func (c *caseT) String() string {
 	rc := c.replay()
-	return fmt.Sprintf("verifier=%s policy=%s listing=[%s] pages=%v limit=%d repository-resolves=%s reference=%s(%q)", rc.Verifier, rc.Policy, strings.Join(rc.Listing, ","), rc.Pages, rc.Limit, rc.Resolved, rc.Reference, rc.ReferenceString)
+	return fmt.Sprintf("verifier=%s policy=%s listing=[%s] pages=%v limit=%d repository-resolves=%s reference=%s(%q) errors=%s signed-payload=%s", rc.Verifier, rc.Policy, strings.Join(rc.Listing, ","), rc.Pages, rc.Limit, rc.Resolved, rc.Reference, rc.ReferenceString, rc.ErrorKind, rc.SignedPayload)
 }
 
 func fromReplay(rc replayCase) (*caseT, error) {
@@ -333,6 +380,16 @@ func fromReplay(rc replayCase) (*caseT, error) {
 	}
 	if !found {
 		return nil, fmt.Errorf("unknown reference kind %q", rc.Reference)
+	}
+	for i, k := range errKinds {
+		if k.name == rc.ErrorKind {
+			c.errK = i
+		}
+	}
+	for i, n := range payloadNames {
+		if n == rc.SignedPayload {
+			c.pay = i
+		}
 	}
 	switch rc.Resolved {
 	case "", "sha256":
@@ -516,20 +573,20 @@ var ctx = context.Background()
 func runCase(fx *realFixtures, c *caseT) (o *obs) {
 	lg := &callLog{}
 	o = &obs{log: lg}
-	repo := &mockRepo{resolved: c.w().resolved, manifests: manifests, blobDescs: blobDescs, blobs: scriptedBlobs, kinds: c.kinds, pages: c.pages, log: lg}
+	repo := &mockRepo{resolved: c.w().resolved, manifests: manifests, blobDescs: blobDescs, blobs: scriptedBlobs, kinds: c.kinds, pages: c.pages, fetchErr: errKinds[c.errK].fetchErr, log: lg}
 	var v notation.Verifier
 	switch c.pass {
 	case pScripted:
-		v = &scriptedVerifier{kinds: c.kinds, blobs: scriptedBlobs, log: lg}
+		v = &scriptedVerifier{kinds: c.kinds, blobs: scriptedBlobs, invalidErr: errKinds[c.errK].verifyErr, content: c.w().contents[c.pay], log: lg}
 	case pSkip:
 		v = fx.skip // the real verifier itself: its SkipVerify is the hook under test
 	case pReal:
 		blobs := make([][]byte, len(c.kinds))
 		descs := make([]ocispec.Descriptor, len(c.kinds))
 		for i, k := range c.kinds {
-			j := 1
+			j := 3
 			if k == kValid {
-				j = 0
+				j = c.pay
 			}
 			blobs[i], descs[i] = fx.blobs[c.world][i][j], fx.descs[c.world][i][j]
 		}
@@ -665,14 +722,17 @@ func judge(c *caseT, e *expectation, o *obs, viol func(key, detail string), rec 
 	if d.loop && ok {
 		// "it then returns the resolved artifact descriptor and exactly that signature's outcome,
 		// having fetched and evaluated no signature after it"
-		if o.desc.MediaType != res.MediaType || o.desc.Digest != res.Digest || o.desc.Size != res.Size {
-			why := "other"
+		// "returns the resolved artifact descriptor": the descriptor the repository answered, field by field
+		// (equal contents, not the same map/slice instances)
+		if !descEq(o.desc, res) {
+			why := "optional-fields-differ" // media type, digest and size agree; annotations, URLs, artifact type, data or platform do not
+			if o.desc.MediaType != res.MediaType || o.desc.Digest != res.Digest || o.desc.Size != res.Size {
+				why = "other"
+			}
 			if descEq(o.desc, ocispec.Descriptor{}) {
 				why = "zero"
 			}
 			viol("result/wrong-descriptor:"+why, fmt.Sprintf("returned descriptor %+v, the repository resolved %+v", o.desc, res))
-		} else if !descEq(o.desc, res) {
-			rec("result/descriptor-fields-beyond-mediatype-digest-size-differ")
 		}
 		w := -1
 		switch {
@@ -999,10 +1059,11 @@ func pagings(k int, emptyPages bool) [][]int {
 }
 
 type spaceT struct {
-	pass      int
-	alphabet  []kind
-	maxLen    int
-	emptyUpTo int // listings of up to this length are also paged with one empty page at each position (-1: never)
+	pass        int
+	alphabet    []kind
+	maxLen      int
+	emptyUpTo   int // listings of up to this length are also paged with one empty page at each position (-1: never)
+	variantUpTo int // listings of up to this length are also run with every error kind x every signed-payload variant
 }
 
 func enumerate(r *hx.Run, fx *realFixtures, sp spaceT) {
@@ -1021,7 +1082,7 @@ func enumerate(r *hx.Run, fx *realFixtures, sp spaceT) {
 	r.Extra[name+"_max_listing_length"] = sp.maxLen
 	r.Extra[name+"_signature_kinds"] = len(sp.alphabet)
 	r.Extra[name+"_empty_pages_for_listings_up_to"] = sp.emptyUpTo
-	r.Extra[name+"_runs"] = npg * len(limits) * len(allRefs)
+	r.Extra[name+"_error_kinds_x_payload_variants_for_listings_up_to"] = sp.variantUpTo
 	var done atomic.Int64
 	r.Parallel(len(listings), func(i int) {
 		if r.Expired() {
@@ -1029,21 +1090,50 @@ func enumerate(r *hx.Run, fx *realFixtures, sp spaceT) {
 		}
 		kinds := listings[i]
 		evals, calls := 0, 0
+		// the extra dimensions matter where a signature fails / verifies: references that reach the listing, N >= 1
+		type variant struct{ errK, pay int }
+		variants := []variant{{0, 0}}
+		if len(kinds) <= sp.variantUpTo && sp.pass != pSkip {
+			hasFailing, hasValid := false, false
+			for _, k := range kinds {
+				hasFailing = hasFailing || k == kUnfetchable || (k == kInvalid && sp.pass == pScripted)
+				hasValid = hasValid || k == kValid
+			}
+			ne, np := 1, 1
+			if hasFailing {
+				ne = len(errKinds)
+			}
+			if hasValid {
+				np = len(payloadNames)
+			}
+			variants = variants[:0]
+			for a := 0; a < ne; a++ {
+				for b := 0; b < np; b++ {
+					variants = append(variants, variant{a, b})
+				}
+			}
+		}
 		loopEntered := make([]bool, len(limits))
 		for _, pages := range pg[len(kinds)] {
 			for ni, n := range limits {
 				for _, ref := range allRefs {
-					c := &caseT{pass: sp.pass, kinds: kinds, pages: pages, n: n, ref: ref.kind, world: ref.world}
-					e := reference(c)
-					o := runCase(fx, c)
-					evals++
-					calls += len(o.log.resolves) + len(o.log.lists) + len(o.log.fetches) + len(o.log.verifies)
-					judge(c, &e, o, func(key, detail string) {
-						r.Violation(key, c.String()+" :: "+detail, c.replay())
-					}, recordKey)
-					record(c, &e, o)
-					if len(o.log.fetches) > 0 {
-						loopEntered[ni] = true
+					vs := variants
+					if n <= 0 || !(ref.kind.isTag() || ref.kind == rDigest) {
+						vs = variants[:1]
+					}
+					for _, vr := range vs {
+						c := &caseT{pass: sp.pass, kinds: kinds, pages: pages, n: n, ref: ref.kind, world: ref.world, errK: vr.errK, pay: vr.pay}
+						e := reference(c)
+						o := runCase(fx, c)
+						evals++
+						calls += len(o.log.resolves) + len(o.log.lists) + len(o.log.fetches) + len(o.log.verifies)
+						judge(c, &e, o, func(key, detail string) {
+							r.Violation(key, c.String()+" :: "+detail, c.replay())
+						}, recordKey)
+						record(c, &e, o)
+						if len(o.log.fetches) > 0 {
+							loopEntered[ni] = true
+						}
 					}
 				}
 			}
@@ -1139,15 +1229,15 @@ func main() {
 		r.SetDeadline(9 * time.Minute)
 		realN = 3
 		spaces = []spaceT{
-			{pScripted, four, 6, 6},
-			{pSkip, four, 4, 4},
-			{pReal, three, 3, 3},
+			{pScripted, four, 6, 6, 5},
+			{pSkip, four, 4, 4, -1},
+			{pReal, three, 3, 3, 3},
 		}
 	} else {
 		spaces = []spaceT{
-			{pScripted, four, 5, 4},
-			{pSkip, three, 3, -1},
-			{pReal, three, 2, 2},
+			{pScripted, four, 5, 4, 3},
+			{pSkip, three, 3, -1, -1},
+			{pReal, three, 2, 2, 2},
 		}
 	}
 	fx := buildReal(r, realN)
